@@ -25,6 +25,7 @@ CONFIGS = [
     {"maxPos": 6, "minPos": 1, "algorithm": "none"},
     {"maxPos": 8, "nodeSpacing": 1.5, "stubWidth": 0, "density": 1.0},
     {"minPos": -2.5, "maxPos": 7.5, "nodeSpacing": 7, "density": 0.3},
+    {"minPos": -8, "maxPos": 0},
     # ---- thorough only
     {"maxPos": 14},
     {"maxPos": 6},
@@ -342,11 +343,11 @@ def multisets(alpha, nmax):
 def plan_layout(tier, seed, nshards=64):
     parts = []
     if tier == "quick":
-        parts.append({"alpha": "v0", "nmax": 4, "nconf": 10})
+        parts.append({"alpha": "v0", "nmax": 4, "nconf": 11})
     else:
-        parts.append({"alpha": "v0", "nmax": 5, "nconf": 24})
-        parts.append({"alpha": "v1", "nmax": 4, "nconf": 10})
-    parts.append({"alpha": "seed", "nmax": 3, "nconf": 10, "seed": seed})
+        parts.append({"alpha": "v0", "nmax": 5, "nconf": 25})
+        parts.append({"alpha": "v1", "nmax": 4, "nconf": 11})
+    parts.append({"alpha": "seed", "nmax": 3, "nconf": 11, "seed": seed})
     shards = []
     for p in parts:
         for r in range(nshards):
@@ -354,6 +355,12 @@ def plan_layout(tier, seed, nshards=64):
     if tier == "thorough":
         for n0 in range(1, 201, 4):
             shards.append({"kind": "sweep", "ns": list(range(n0, min(201, n0 + 4)))})
+    else:
+        # deep-narrow slice of the quick tier: clusters deep enough for >= 3 layers, and a few heavy clusters
+        for n in range(5, 17):
+            shards.append({"kind": "minisweep", "ns": [n]})
+        for n in (50, 100, 200):
+            shards.append({"kind": "sweep", "ns": [n], "configs": [0, 1, 3], "pitches": [0, 0.5]})
     return shards
 
 
@@ -371,14 +378,31 @@ SWEEP_CONFIGS = [{}, {"minPos": None}, {"maxPos": 300}, "fit-exact"]
 SWEEP_BIG = {"maxPos": 300, "algorithm": "simple"}  # the overlap distributor is cubic in the cluster size: minutes at n=200
 
 
-def sweep_cases(ns_list):
+MINI_CONFIGS = [{"maxPos": 10}, {"maxPos": 30, "density": 0.5}, {"maxPos": 14, "stubWidth": 2, "nodeSpacing": 1.5},
+                {"minPos": 2, "maxPos": 16, "algorithm": "simple"}]
+
+
+def minisweep_cases(ns_list):
+    """Clusters of 5..16 labels under bounds so tight that they need >= 3 layers."""
+    for n in ns_list:
+        for wname, wf in SWEEP_WIDTHS.items():
+            for pitch in (0, 0.5, 1.5):
+                for base in (3, 3.5):
+                    labels = [(base + ((i * pitch) % 6), wf(i)) for i in range(n)]
+                    for ci, c in enumerate(MINI_CONFIGS):
+                        yield {"labels": labels, "opts": dict(c), "family": [n, wname, pitch, ci]}
+
+
+def sweep_cases(ns_list, configs=None, pitches=None):
     for n in ns_list:
         for wname, wf in SWEEP_WIDTHS.items():
             ws = [wf(i) for i in range(n)]
             gap = (ws[0] + ws[min(1, n - 1)]) / 2 + 3
-            for pitch in (0, 0.5, 1, 3, gap / 2, gap - 0.5):
+            for pitch in (pitches if pitches is not None else (0, 0.5, 1, 3, gap / 2, gap - 0.5)):
                 labels = [(10 + i * pitch, ws[i]) for i in range(n)]
                 for ci, c in enumerate(SWEEP_CONFIGS):
+                    if configs is not None and ci not in configs:
+                        continue
                     opts = dependent_config(c, labels) if isinstance(c, str) else dict(c)
                     if n > 60 and c == {"maxPos": 300}:
                         opts = dict(SWEEP_BIG)
@@ -411,7 +435,9 @@ def run_layout_shard(prop, shard):
             if idx % 997 == shard["rem"]:
                 acc.sample({"labels": labels, "opts": opts})
         return acc
-    for case in sweep_cases(shard["ns"]):
+    gen = minisweep_cases(shard["ns"]) if shard["kind"] == "minisweep" else \
+        sweep_cases(shard["ns"], shard.get("configs"), shard.get("pitches"))
+    for case in gen:
         info = _Info(acc)
         bad = evaluate(prop, case["labels"], case["opts"], info)
         acc.evals += 1
@@ -462,9 +488,10 @@ def bounds(tier, seed):
     return {
         "alphabet": "positions 0..6 step 0.5 x widths {1,4}" + (" (+2.5 at n<=4)" if tier == "thorough" else ""),
         "max_labels": 4 if tier == "quick" else 5,
-        "configs": (10 if tier == "quick" else 24) + len(DEPENDENT),
+        "configs": (11 if tier == "quick" else 25) + len(DEPENDENT),
         "seeded_slice": {"seed": seed, "letters": seeded_letters(seed)[:4], "nmax": 3},
-        "sweep": "n=1..200 x 6 pitches x 3 width patterns x 4 configs" if tier == "thorough" else "none (thorough only)",
+        "sweep": "n=1..200 x 6 pitches x 3 width patterns x 4 configs" if tier == "thorough" else
+                 "clusters n=5..16 x 3 widths x 3 pitches x 2 bases x 4 tight-bound configs (>=3 layers); n in {50,100,200} x 2 pitches x 3 configs",
     }
 
 
